@@ -741,8 +741,11 @@ func runC14(c *Ctx) {
 		results[i] = c14RunCell(c.Seed, cells[i])
 	})
 	defer func() { <-satDone }()
+	exDone := make(chan struct{})
+	go func() { defer close(exDone); c14Exhaust(c) }()
 	c14Churn(c)
 	c14Fallback(c)
+	<-exDone
 	type cand struct {
 		res *c14Result
 		f   c14Finding
